@@ -41,6 +41,7 @@ def df_exprs(t, o, ivar=None, alphabet="full"):
 
 REDUCED = [("u", "fresh"), ("v", "fresh"), ("u", "other"), ("v", "copy"), ("u", "self")]
 MINI = [("u", "fresh"), ("v", "fresh"), ("u", "other")]
+ALIAS = [("u", "fresh"), ("v", "copy"), ("u", "self"), ("v", "fresh")]
 
 
 def df_stmts(ivar, alphabet):
@@ -55,6 +56,8 @@ def df_stmts(ivar, alphabet):
             if alphabet == "reduced" and (t, tag) not in REDUCED:
                 continue
             if alphabet == "mini" and (t, tag) not in MINI:
+                continue
+            if alphabet == "alias" and (t, tag) not in ALIAS:
                 continue
             out.append(["assign", t, e])
     return out
@@ -77,8 +80,56 @@ RANGES = [("k", V("k")), ("2", L(2)), ("0", L(0)), ("n", A("n"))]
 KINDS = ["if", "for", "while", "forb", "whileb"]
 
 
+# renamings of the local variables u, v (ch.all): locals named like the parameter (plain rebinding of x) and like
+# the names the translator generates (<name>_<counter>, tmp, return_val, cond...). A seeded defect stopped probing
+# generated names against the names in use; HEAD returned a graph input directly after 'v = x; x = ...; return v'.
+RENAMES = [
+    ("u=x", {"u": "x"}),
+    ("v=u_0", {"v": "u_0"}), ("v=u_1", {"v": "u_1"}), ("v=u_2", {"v": "u_2"}), ("v=u_3", {"v": "u_3"}),
+    ("u=v_0", {"u": "v_0"}), ("u=v_1", {"u": "v_1"}), ("u=v_2", {"u": "v_2"}),
+    ("v=x_0", {"v": "x_0"}), ("v=x_1", {"v": "x_1"}),
+    ("u=x,v=x_0", {"u": "x", "v": "x_0"}), ("u=x,v=x_1", {"u": "x", "v": "x_1"}),
+    ("u=x,v=x_2", {"u": "x", "v": "x_2"}), ("u=x,v=x_3", {"u": "x", "v": "x_3"}),
+    ("v=tmp", {"v": "tmp"}), ("v=tmp_0", {"v": "tmp_0"}), ("v=tmp_1", {"v": "tmp_1"}),
+    ("u=tmp,v=tmp_0", {"u": "tmp", "v": "tmp_0"}), ("u=tmp,v=tmp_1", {"u": "tmp", "v": "tmp_1"}),
+    ("v=return_val", {"v": "return_val"}), ("v=return_val0", {"v": "return_val0"}),
+    ("u=return_val1,v=return_val0", {"u": "return_val1", "v": "return_val0"}),
+    ("v=cond", {"v": "cond"}), ("v=cond_in", {"v": "cond_in"}), ("v=cond_out", {"v": "cond_out"}),
+    ("v=i_0", {"v": "i_0"}), ("v=i_1", {"v": "i_1"}),
+]
+RENAMES_QUICK = ["u=x", "v=u_0", "v=u_1", "v=u_2", "v=x_0", "u=x,v=x_0", "u=x,v=x_1", "u=x,v=x_2", "v=tmp", "v=tmp_0",
+                 "u=tmp,v=tmp_0", "v=return_val", "v=return_val0", "v=cond"]
+
+
+def rename_prog(node, m):
+    """Rename variables (uses and assignment targets) of an sg program / statement / expression."""
+    if isinstance(node, dict):
+        out = dict(node)
+        out["body"] = rename_prog(node["body"], m)
+        out["ret"] = rename_prog(node["ret"], m)
+        return out
+    if not isinstance(node, list):
+        return node
+    if len(node) == 2 and node[0] == "var" and isinstance(node[1], str):
+        return ["var", m.get(node[1], node[1])]
+    if node and node[0] == "assign":
+        return ["assign", m.get(node[1], node[1]), rename_prog(node[2], m)]
+    if node and node[0] in ("massign", "passign"):
+        return [node[0], [m.get(t, t) for t in node[1]], rename_prog(node[2], m)]
+    if node and node[0] == "for":
+        return ["for", m.get(node[1], node[1]), rename_prog(node[2], m), rename_prog(node[3], m),
+                m.get(node[4], node[4]) if node[4] else node[4]]
+    if node and node[0] == "while":
+        return ["while", m.get(node[1], node[1]), rename_prog(node[2], m), m.get(node[3], node[3]) if node[3] else node[3]]
+    return [rename_prog(c, m) for c in node]
+
+
 class DFConfig:
-    def __init__(self, size, depth, alphabet="full", kinds=KINDS, periph=0, top_items=3, ivar_after=True):
+    def __init__(self, size, depth, alphabet="full", kinds=KINDS, periph=0, top_items=3, ivar_after=True,
+                 renames=None, prologues=None, returns=None):
+        self.renames = renames          # list of (label, mapping): every one is explored (ch.all)
+        self.prologues = prologues      # labels of PROLOGUES explored exhaustively (ch.all) instead of by deviation
+        self.returns = returns          # labels of RETURNS explored exhaustively
         self.ivar_after = ivar_after
         self.size = size
         self.depth = depth
@@ -152,8 +203,14 @@ def df_driver(cfg):
                 raise explore.Prune()
             return stmts
 
-        pro = ch.choose("prologue", PROLOGUES)
-        ret = ch.choose("return", RETURNS)
+        if cfg.prologues:
+            pro = ch.all("prologue", [p for p in PROLOGUES if p[0] in cfg.prologues])
+        else:
+            pro = ch.choose("prologue", PROLOGUES)
+        if cfg.returns:
+            ret = ch.all("return", [r for r in RETURNS if r[0] in cfg.returns])
+        else:
+            ret = ch.choose("return", RETURNS)
         stale = ch.choose("ivar_after", [False, True]) if cfg.ivar_after else False
         body = block(0, None, True)
         full = list(pro[1]) + body
@@ -163,6 +220,8 @@ def df_driver(cfg):
             full = [["assign", "i", ["bin", "+", V("k"), L(5)]]] + full + [
                 ["assign", "u", ["bin", "+", V("u"), CAST_I("i")]]]
         prog = finish_prog(full, [V(r) for r in ret[1]])
+        if cfg.renames:
+            prog = rename_prog(prog, ch.all("rename", cfg.renames)[1])
         return {"sub": "df", "prog": prog}
 
     return drive
